@@ -605,6 +605,9 @@ ASSUMPTIONS = [
     'within one schedule step the order in which asyncio resumes SEVERAL cancelled tasks is not compared (items are '
     'grouped per task); on_exception handlers, timeouts and machines sharing a model are not explored',
     'each event name is triggered at most once per case (top-level or from one callback)',
+    'a raising on_timeout handler (with / without an on_exception handler) while an event of the model is in flight is '
+    'checked by 24 hand-written scenarios against the expected outcome (extra check timeout_handler_error), not through '
+    'the Coq model (on_exception handlers are outside the model)',
     'AsyncTimeout cases: timers themselves (arming on enter, cancelling on exit, asyncio.sleep, shield) are asyncio / C17 '
     'territory; the harness keeps every set_state of the timeout model in a task that read the current state (events of '
     'that model top-level and unprotected, no suspension between "conditions passed" and entering the timeout state) so '
@@ -918,4 +921,117 @@ def extra_checks(tier, seed):
                 dict(programs=len(small_programs(tier)), schedules=total, disagreements=bad,
                      note='every order of starting the tasks and releasing each suspension point of hand-written '
                           '2-3 task programs, all queue modes, both classes'), first or {}))
+    out.append(timeout_error_check())
     return out
+
+
+# ------------------------------------------------------------------ a raising on_timeout handler while an event is in flight
+def _timeout_error_scenario(cls_idx, handler, slot, coro):
+    """AsyncTimeout state 'w' whose on_timeout handler RAISES, while the event 'go' of the same model is suspended in
+    a coroutine callback (slot: prepare / conditions / before, i.e. before 'w' is left).  With an on_exception handler
+    the error is handled and nothing may be cancelled; without one _process_timeout cancels the model's running
+    transitions."""
+    flat._import_transitions()
+    from transitions.extensions.asyncio import AsyncMachine, HierarchicalAsyncMachine, AsyncTimeout
+    from transitions.extensions.states import add_state_features
+    base = [AsyncMachine, HierarchicalAsyncMachine][cls_idx]
+    cls = add_state_features(AsyncTimeout)(type('E' + base.__name__, (base,), {}))
+    loop = VLoop()
+    log = []
+    hold = {}
+
+    async def quiesce():
+        for _ in range(40):
+            await asyncio.sleep(0)
+
+    async def main():
+        AsyncMachine.async_tasks.clear()
+        del AsyncMachine.protected_tasks[:]
+        model = Model()
+
+        async def slow(*a, **k):
+            log.append('slow-begin')
+            hold['f'] = asyncio.get_running_loop().create_future()
+            await hold['f']
+            log.append('slow-end')
+            return True
+
+        def boom(*a, **k):
+            log.append('timeout')
+            raise UserExc()
+
+        async def aboom(*a, **k):
+            boom()
+
+        async def handled(*a, **k):
+            log.append('handled')
+
+        machine = cls(model, states=['a', dict(name='w', timeout=100, on_timeout=[aboom if coro else boom]), 'b'],
+                      initial='a', auto_transitions=False, on_exception=[handled] if handler else None)
+        machine.add_transition('arm', 'a', 'w')
+        machine.add_transition('go', 'w', 'b', **{slot: [slow]})
+        try:
+            armed = await model.arm()
+            task = asyncio.ensure_future(model.go())
+            await quiesce()
+            registered = sum(len(v) for v in AsyncMachine.async_tasks.values())
+            loop._vt += 1000.0                  # the timer fires, the handler raises
+            await quiesce()
+            cancelled = 'f' in hold and hold['f'].cancelled()
+            if 'f' in hold and not hold['f'].done():
+                hold['f'].set_result(None)
+            await quiesce()
+            if task.done():
+                res = 'exc' if (task.cancelled() or task.exception() is not None) else task.result()
+            else:
+                res = 'pending'
+            return dict(armed=armed, registered=registered, log=list(log), cancelled=bool(cancelled), result=res,
+                        state=model.state, tasks_left=len(AsyncMachine.async_tasks))
+        finally:
+            me = asyncio.current_task()
+            for _ in range(2):
+                for t in asyncio.all_tasks():
+                    if t is not me and not t.done():
+                        t.cancel()
+                for _ in range(6):
+                    await asyncio.sleep(0)
+            AsyncMachine.async_tasks.clear()
+            del AsyncMachine.protected_tasks[:]
+    try:
+        loop.set_exception_handler(lambda l, ctx: None)
+        return loop.run_until_complete(main())
+    finally:
+        loop.close()
+
+
+def timeout_error_check():
+    total = 0
+    first = None
+    for cls_idx in (0, 1):
+        for handler in (True, False):
+            for slot in ('prepare', 'conditions', 'before'):
+                for coro in (False, True):
+                    total += 1
+                    params = dict(cls=cls_idx, on_exception=handler, suspended_in=slot, coroutine_handler=coro)
+                    try:
+                        got = _timeout_error_scenario(cls_idx, handler, slot, coro)
+                    except BaseException as ex:  # noqa
+                        got = dict(harness_error='%s: %s' % (type(ex).__name__, ex))
+                    if handler:
+                        # a handled timeout error cancels nothing: the event in flight completes
+                        want = dict(armed=True, registered=1, log=['slow-begin', 'timeout', 'handled', 'slow-end'],
+                                    cancelled=False, result=True, state='b', tasks_left=0)
+                    else:
+                        # unhandled: _process_timeout cancels the model's running transitions; the cancelled event
+                        # returns False, sets no state, nothing is left in async_tasks
+                        want = dict(armed=True, registered=1, log=['slow-begin', 'timeout'], cancelled=True,
+                                    result=False, state='w', tasks_left=0)
+                    if got != want and first is None:
+                        first = dict(kind='oracle', case=params, impl_obs=got, expected=want,
+                                     failing_clause='cancellation hits only its targets: a timeout-handler error that '
+                                                    'on_exception handled must not cancel the in-flight event'
+                                     if handler else 'unhandled timeout-handler error: the running transition is cancelled')
+    return ('timeout_handler_error', first is None,
+            dict(scenarios=total, note='AsyncTimeout on_timeout handler raises while an event of the model is suspended in '
+                                       'prepare/conditions/before; with and without on_exception; both classes'),
+            first or {})
